@@ -27,6 +27,10 @@ type c05cCase struct {
 }
 
 func runC05c(c c05cCase) (string, string, int) {
+	return guard3("C05", func() (string, string, int) { return runC05c0(c) })
+}
+
+func runC05c0(c c05cCase) (string, string, int) {
 	s := c.S
 	var items []e2eItem
 	level := uint16(2000)
@@ -113,7 +117,11 @@ type c12rCase struct {
 }
 
 // runC12r drives a real MotionProcessor whose three sinks are real CPTVFileRecorders.
-func runC12r(c c12rCase) (sig, msg string, nops int) {
+func runC12r(c c12rCase) (string, string, int) {
+	return guard3("C12", func() (string, string, int) { return runC12r0(c) })
+}
+
+func runC12r0(c c12rCase) (sig, msg string, nops int) {
 	dir, err := os.MkdirTemp("", "c12r-")
 	if err != nil {
 		panic(err)
